@@ -39,6 +39,7 @@ def gen_case(rng, tier):
         prof["w_op"] = max(prof["w_op"], 2)
     variant = rng.choices(["A", "B", "C", "D"], [55, 20, 17, 8])[0]
     prof["select"] = variant in "AB" and rng.random() < 0.12  # an alias that is one of two buffers (arith.select)
+    prof["while_loops"] = rng.choice([0, 0, 0, 0.5]) if variant in "AB" else 0  # counted loops written as scf.while
     prof["gather"] = rng.choice([0, 0, 0, 0.3]) if variant in "AB" else 0  # kernels whose body loads from a captured local buffer
     handover = variant in "AB" and rng.random() < 0.2
     prof["rotation"] = 0.5 if handover else 0  # ping-pong buffers rotated through the iter_args of a loop
